@@ -1135,7 +1135,7 @@ func runC18RoundTrip(ctx *Ctx) {
 			one(f, &c18Gen{r: ctx.R, mode: c18Clean, distinct: true}, depth)
 		}
 	}
-	n := ctx.N(15000, 90000)
+	n := ctx.N(40000, 400000)
 	for i := 0; i < n; i++ {
 		f := fams[i%len(fams)]
 		g := &c18Gen{r: ctx.R, mode: c18Clean}
@@ -1160,7 +1160,7 @@ func runC18RoundTrip(ctx *Ctx) {
 	menu := []cty.Type{cty.Bool, cty.Number, cty.String, cty.DynamicPseudoType, cty.List(cty.String), cty.List(cty.Number), cty.Map(cty.Number), cty.Set(cty.String),
 		cty.EmptyObject, cty.Object(map[string]cty.Type{"a": cty.Number, "b": cty.String}), cty.Object(map[string]cty.Type{"a": cty.Number, "zz": cty.Bool}),
 		cty.EmptyTuple, cty.Tuple([]cty.Type{cty.Number, cty.String}), cty.Tuple([]cty.Type{cty.Number, cty.Number, cty.Number})}
-	m := ctx.N(6000, 30000)
+	m := ctx.N(15000, 150000)
 	for i := 0; i < m; i++ {
 		f := c18Family[ctx.R.Intn(len(c18Family))]
 		g := &c18Gen{r: ctx.R, mode: c18NilAny}
@@ -1283,7 +1283,7 @@ func runC18Decode(ctx *Ctx) {
 			emit(v, f.rt, "probe")
 		}
 	}
-	n := ctx.N(30000, 200000)
+	n := ctx.N(80000, 1000000)
 	for i := 0; i < n; i++ {
 		f := c18Family[i%len(c18Family)]
 		var v cty.Value
